@@ -4,7 +4,7 @@
 From Coq Require Import String Ascii List Bool Arith.
 From LV Require Import Base.Prelude Shape.Chain Shape.Spec Shape.Chain_proofs Shape.Shape_proofs
   Shape.Ebnf Shape.Ebnf_proofs Cfg.Grammar Forest.Sppf Forest.Prio Forest.ExplicitBuild
-  Shape.EarleyLeg Shape.EarleyLeg_proofs Shape.Cnf Shape.Cnf_proofs Shape.CykParse Shape.CykParse_proofs.
+  Shape.EarleyLeg Shape.EarleyLeg_proofs Shape.Cnf Shape.Cnf_proofs Shape.CykParse Shape.CykParse_proofs Shape.CnfLink Shape.CnfLink_proofs Shape.CnfClosure_proofs.
 Import ListNotations.
 Local Open Scope string_scope.
 
@@ -207,12 +207,53 @@ Proof.
 Qed.
 Print Assumptions C03_cyk_unambiguous.
 
+(* Round 9: the link is proved.  [closure_check rules g] is a decidable statement about one CNF grammar: every
+   rule of g is canonical (a term rule of a termified rule, a split rule of a rule with >= 3 symbols, or the head
+   of a non-unit rule reached through a chain of unit rules, carrying that chain as its skipped list), g contains
+   every enumerated canonical rule, and the unit rules are acyclic.  Over such a grammar the CNF derivations from
+   original non-terminals are exactly the pre-images of the derivations of G. *)
+Theorem C03_cnf_link rules g : closure_check rules g = true -> cnf_link_sound rules g /\ cnf_link_complete rules g.
+Proof.
+  intros H. destruct (closure_check_sound rules g H) as [Hs Hc]. split.
+  - intros c n Hd. exact (link_sound rules g Hs c n Hd).
+  - intros rid ch Hwf. exact (link_complete rules g Hc rid ch Hwf).
+Qed.
+Print Assumptions C03_cnf_link.
+
+(* ... so the CYK engine theorems hold for every grammar that passes the check *)
+Theorem C03_cyk_engine rules mp g start :
+  Forall (fun r => rule_wf r mp = true /\ inline_ok r = true) rules ->
+  (forall r, In r g -> cnf_shape r = true) -> closure_check rules g = true ->
+  (forall w c, cyk_parse g w start = Some c ->
+     exists d, wf_otree rules d = true /\ oroot_is rules start d /\ oyield d = w /\
+               cyk_result rules mp c = shape mp (o_dtree rules d)) /\
+  (forall rid ch, wf_otree rules (ONode rid ch) = true -> r_origin (rule_n rules rid) = start ->
+     exists c, cyk_parse g (oyield (ONode rid ch)) start = Some c) /\
+  (forall d, wf_otree rules d = true -> oroot_is rules start d ->
+     (forall d', wf_otree rules d' = true -> oroot_is rules start d' -> oyield d' = oyield d -> d' = d) ->
+     cyk_parse g (oyield d) start = Some (cnf_of rules d) /\
+     cyk_result rules mp (cnf_of rules d) = shape mp (o_dtree rules d)).
+Proof.
+  intros Ht Hs Hcc. destruct (C03_cnf_link rules g Hcc) as [Hls Hlc]. split; [|split].
+  - intros w c. exact (C03_cyk_returns_shape_of_derivation rules mp g w start c Ht Hls).
+  - intros rid ch. exact (C03_cyk_accepts_sentences rules g start rid ch Hs Hlc).
+  - intros d. exact (C03_cyk_unambiguous rules mp g start d Ht Hs Hls Hlc).
+Qed.
+Print Assumptions C03_cyk_engine.
+
+(* What stays open (_partial): that the TERM / BIN / UNIT passes of to_cnf produce such a grammar.  It is evaluated
+   by vm_compute for every grammar of the CYK stream, on the model's output AND on the grammar lark built. *)
+Definition C03_to_cnf_closure_full_statement : Prop :=
+  forall rules fuel g, to_cnf fuel rules = Ok g ->
+    Forall (fun r => r_exp r <> []) rules -> closure_check rules g = true /\ (forall r, In r g -> cnf_shape r = true).
+
 (* engines agree: whatever derivation d of the input the engines follow, each returns shape(d):
    LALR's value-stack driver along d, CYK on the CNF pre-image of d, Earley's resolve-mode walk on a
    forest whose selected derivation is d.  With a unique derivation of the input these are the same
    d.  _partial: that LALR's table driver follows a derivation of the input is C02's driver
-   theorem; for CYK the chart itself is proved (C03_cyk_chart_*, C03_cyk_unambiguous) and only the link
-   between to_cnf(G) and G (cnf_link_sound / cnf_link_complete, (1) above) stays open; that lark's SPPF is an unfolding of
+   theorem; for CYK the chart (the C03_cyk_chart theorems) and the link between the CNF grammar and G (C03_cnf_link) are
+   proved, so C03_cyk_engine holds for every CNF grammar passing the decidable closure_check; only that to_cnf's
+   passes produce such a grammar (C03_to_cnf_closure_full_statement, evaluated per grammar) stays open; that lark's SPPF is an unfolding of
    a forest of add_family-shaped families whose stored derivations are all derivations is C04
    layer A (C03_earley_resolve_is_shape_of_derivation composes it). *)
 Theorem C03_engines_agree_partial rules mp d s ts :
